@@ -78,7 +78,11 @@ impl<W: AsyncWrite> AsyncWrite for BufWriter<W> {
             })
             .expect("Closure always return Ok");
 
-        (_, buf) = buf_try!(self.flush_if_needed().await, buf);
+        // The bytes are accepted now. An error of this opportunistic flush must not be
+        // reported as a failure of the write: a caller that retries (as `write_all` does
+        // on `Interrupted`) would queue the same bytes twice. The unsent data stays in
+        // the buffer and the error is reported by the next write or flush.
+        let _ = self.flush_if_needed().await;
 
         BufResult(Ok(written), buf)
     }
@@ -104,7 +108,11 @@ impl<W: AsyncWrite> AsyncWrite for BufWriter<W> {
             })
             .expect("Closure always return Ok");
 
-        (_, buf) = buf_try!(self.flush_if_needed().await, buf);
+        // The bytes are accepted now. An error of this opportunistic flush must not be
+        // reported as a failure of the write: a caller that retries (as `write_all` does
+        // on `Interrupted`) would queue the same bytes twice. The unsent data stays in
+        // the buffer and the error is reported by the next write or flush.
+        let _ = self.flush_if_needed().await;
 
         BufResult(Ok(written), buf)
     }
